@@ -23,6 +23,7 @@ HARNESS = {
     '/repo/internal/db/zz_c05_fault_test.go': f'{V}/harness/db/zz_c05_fault_test.go',
     '/repo/internal/db/zz_merge_harness_test.go': f'{V}/harness/db/zz_merge_harness_test.go',
     '/repo/internal/db/zz_c03_timetravel_test.go': f'{V}/harness/db/zz_c03_timetravel_test.go',
+    '/repo/internal/db/zz_c07_index_test.go': f'{V}/harness/db/zz_c07_index_test.go',
 }
 
 def overlay():
@@ -126,6 +127,34 @@ if prop == 'C03':
                    'replay_cmd': "go test -overlay <harness overlay> -vet=off -run '^TestGovcC03TimeTravel$' ./internal/db"}, open(rp, 'w'), indent=1)
         lines.append(f'VIOLATION property={prop} replay={rp}')
         violations.append(('time travel', probs[:3]))
+
+if prop == 'C07':
+    summary['function'] = 'planner index selection + fetcher.indexFetcher iterators/matchers + index maintenance, through DB.ExecRequest and the collection API (go test -overlay on two real databases, one with and one without the secondary indexes)'
+    env = {'VERIF_BOUND_N': '30', 'VERIF_BOUND_L': '6', 'VERIF_SEED': str(seed)}
+    bound = 'three logical documents (name in {a,b}, age, unique email in {x@x,y@y,null}); directed family: create d0(a,x@x); create d1(any); one of {update d0/d1 (any values), delete d0/d1, delete-by-filter name=a}; create d2(name a, any email) - 270 histories - plus 30 seeded random histories of length 6 over that alphabet; after every step 18 queries (eq/ne/in/like/range/null/_or filters on the indexed fields, ASC/DESC order) must return the same documents (same key sequence for ordered ones) with and without the indexes, and the unique index must reject exactly the writes that duplicate a live non-null email; plus: a replica with indexes merges create+delete of an unseen document'
+    if tier == 'thorough':
+        env = {'VERIF_BOUND_N': '400', 'VERIF_BOUND_L': '8', 'VERIF_SEED': str(seed), 'VERIF_BOUND_DIRECTED': 'full'}
+        bound = bound.replace('270 histories', '1620 histories (every d0)').replace('30 seeded random histories of length 6', '400 seeded random histories of length 8')
+    p, res = gotest('^TestGovcC07Index$', env, 2400)
+    p2, _ = gotest('^TestGovcC07MergeCreatedAndDeleted$', {}, 300)
+    if res is None:
+        rp = f'{V}/replays/{prop}/bounded-harness.json'
+        os.makedirs(os.path.dirname(rp), exist_ok=True)
+        json.dump({'property': prop, 'obligation': 'bounded harness', 'reason': 'the index differential harness no longer builds or runs against the current tree', 'output': (p.stdout + p.stderr)[-4000:]}, open(rp, 'w'), indent=1)
+        print(f'VIOLATION property={prop} replay={rp} no-failing-input-found')
+        sys.exit(1)
+    probs = res.get('problems') or []
+    if p2.returncode != 0:
+        probs.append({'history': 'replica a: create(name a, age 1, email x@x); delete; deliver the head to replica b (same indexed schema)', 'step': 2,
+                      'what': 'merge of create+delete of an unseen document into an indexed collection: ' + ' '.join(l.strip() for l in p2.stdout.splitlines() if 'C07' in l)[:600]})
+    summary.update({'bound': bound, 'cases': res['cases'] + 1, 'distinct_nontrivial': res['cases'] + 1, 'exhaustive': False, 'violating_histories': len({q['history'] for q in probs})})
+    if probs:
+        rp = f'{V}/replays/{prop}/bounded-history-1.json'
+        os.makedirs(os.path.dirname(rp), exist_ok=True)
+        json.dump({'property': prop, 'obligation': 'bounded stand-in: index differential', 'problems': probs[:10],
+                   'replay_cmd': "go test -overlay <harness overlay> -vet=off -run '^TestGovcC07' ./internal/db"}, open(rp, 'w'), indent=1)
+        lines.append(f'VIOLATION property={prop} replay={rp}')
+        violations.append(('index differential', probs[:3]))
 
 summary['wall_s'] = round(time.time() - t0, 1)
 json.dump(summary, open(f'{work}/{prop}.json', 'w'), indent=1)
